@@ -167,6 +167,7 @@ Variable fx fi fd : bool.
 Variable v : version.
 Variable ist : list attr -> istyle.
 Variable cm us : bool.
+Variable mcpos rrpos : nat.
 Hypothesis Hstyle : style_ok ist fi.
 
 Lemma printable_parts : forall m, printable E true m ->
@@ -176,7 +177,7 @@ Proof. intros m H. unfold printable, printableb in H. bsplit_all. now split. Qed
 (** on every printable, expressible model — connections and imports included — the permissive parser reads the 1.x
     rewriting exactly as the strict 2.0 parser reads the 2.0 document, after the one transformation message *)
 Theorem transform_as_20 : forall m, printable E true m -> expressible_1x E v m ->
-  load1x E fx fi fd false (to1x v ist cm us false E m)
+  load1x E fx fi fd false (to1x v ist cm us false mcpos rrpos E m)
   = (fst (load E fx true (print_tree E m)), msg :: snd (load E fx true (print_tree E m))).
 Proof.
   intros m Hp He. destruct (printable_parts m Hp) as [Hn Hc]. unfold to1x.
@@ -187,7 +188,7 @@ Qed.
 
 (** stages 1 + 2: flat models *)
 Theorem transform_flat : forall m, printable E true m -> expressible_1x E v m -> flat m = true ->
-  load1x E fx fi fd false (to1x v ist cm us false E m) = (canon E m, [msg]).
+  load1x E fx fi fd false (to1x v ist cm us false mcpos rrpos E m) = (canon E m, [msg]).
 Proof.
   intros m Hp He Hf. rewrite transform_as_20 by assumption.
   destruct (roundtrip_flat E fx m Hp Hf) as [_ Hl]. now rewrite Hl.
@@ -196,7 +197,7 @@ Qed.
 (** stage 3: any encapsulation hierarchy *)
 Theorem transform_encapsulation_exact : forall m, printable E true m -> expressible_1x E v m ->
   no_imports m = true -> no_connections m = true ->
-  load1x E fx fi fd false (to1x v ist cm us false E m)
+  load1x E fx fi fd false (to1x v ist cm us false mcpos rrpos E m)
   = ({| m_name := m_name m; m_id := m_id m; m_encid := m_encid m; m_units := map (canon_units E) (m_units m);
         m_comps := map (canon_comp E) (enc_order (m_comps m)); m_eqv := [] |}, [msg]).
 Proof.
@@ -206,7 +207,7 @@ Qed.
 
 Theorem transform_roundtrip : forall m, printable E true m -> expressible_1x E v m ->
   no_imports m = true -> no_connections m = true ->
-  exists m' is, load1x E fx fi fd false (to1x v ist cm us false E m) = (m', is)
+  exists m' is, load1x E fx fi fd false (to1x v ist cm us false mcpos rrpos E m) = (m', is)
                 /\ content_eq m' (canon E m) /\ Forall (fun i => is_message i = true) is.
 Proof.
   intros m Hp He Hi Hc. destruct (roundtrip_enc E fx m Hp Hi Hc) as (m' & _ & Hl & Hce).
@@ -221,7 +222,7 @@ Theorem strict_refuses_any : forall x, is_cellml20 "model" x = false ->
 Proof. intros x H. unfold load1x, load. cbn [negb andb]. now rewrite H. Qed.
 
 Theorem strict_refuses : forall hoist m,
-  load1x E fx fi fd true (to1x v ist cm us hoist E m) = (empty_model, [(LError, "XML_UNEXPECTED_ELEMENT")]).
+  load1x E fx fi fd true (to1x v ist cm us hoist mcpos rrpos E m) = (empty_model, [(LError, "XML_UNEXPECTED_ELEMENT")]).
 Proof.
   intros hoist m. apply strict_refuses_any. unfold to1x, print_tree, print_gen, el, conv1x.
   unfold is_cellml20, is_element. destruct v; reflexivity.
